@@ -76,6 +76,7 @@ int vrt_overflowed(void);
 /* steering: a callback consulted in `pre` for traced sites (before the lock) */
 typedef void (*vrt_steer_t)(struct dispatch_verif_site_s *, const volatile void *, int obj);
 void vrt_set_steer(vrt_steer_t fn);
+void vrt_set_post_steer(vrt_steer_t fn);   /* same, but called after a recorded access (lock released) */
 
 #ifdef __cplusplus
 }
